@@ -1,6 +1,8 @@
 #!/bin/sh
 # dev helper: run every registered thorough command sequentially, print result line + wall time
-for p in C03 C07 C08 C12 C14 C15 C09 C13 C01 C16 C11 C02 C06 C05 C10 C04; do
+# usage: run_all_thorough.sh [ID ...]   (default: all, cheapest first)
+ids="$@"; [ -z "$ids" ] && ids="C03 C07 C12 C15 C16 C01 C02 C13 C14 C08 C09 C10 C06 C11 C05 C04"
+for p in $ids; do
   s=$(date +%s); ./check $p --tier thorough > thorough_$p.log 2>&1; rc=$?; e=$(date +%s)
   echo "$p rc=$rc $((e-s))s $(grep -c '^VIOLATION' thorough_$p.log) violations; $(tail -1 thorough_$p.log)"
 done
